@@ -210,7 +210,8 @@ def run_driver(h, cfg):
     import skglm.solvers as S
     solver_name = cfg['solver']
     Xc = X_of(cfg['X'])
-    if h.mode != 'sym' and h.unpatched and cfg.get('acc_stub') and getattr(h, 'rng', None) is not None:
+    if h.mode != 'sym' and h.unpatched and cfg.get('acc_stub') and getattr(h, 'rng', None) is not None \
+            and not cfg.get('keep_design'):
         # confirmation search with the real accelerator (K=5): extrapolation only matters on problems with more
         # coordinates than the catalogue designs, so the search draws a larger correlated design
         seed = int(float(h._val('design_seed'))) if 'design_seed' in h.values else int(h.rng.random() * 2 ** 31)
@@ -227,6 +228,8 @@ def run_driver(h, cfg):
         cfg = dict(cfg, w0_concrete=None, ylabels=None)
         if cfg.get('two_iter'):
             cfg['max_iter'] = 8            # several working-set changes on the larger design
+    if h.mode != 'sym' and h.unpatched and cfg.get('keep_design'):
+        cfg = dict(cfg, ylabels=None)       # confirmation search on the catalogue design: targets are drawn at random
     n, p = Xc.shape
     fit_intercept = cfg.get('fit_intercept', False)
     R = Rec()
@@ -242,7 +245,10 @@ def run_driver(h, cfg):
         _, y, dmeta = mk_datafit(h, cfg['datafit'], n, cfg.get('ylabels'))
         dmeta['name'] = cfg['datafit']
     else:
-        pen, meta = mk_sep_penalty(h, cfg['penalty'], p=p, step=None, concrete_hyper=cfg.get('concrete_hyper', True))
+        pen, meta = mk_sep_penalty(h, cfg['penalty'], p=p, step=None, concrete_hyper=cfg.get('concrete_hyper', True),
+                                   zero_weight=cfg.get('zero_weights'),
+                                   weights=(h.const(np.array(cfg['weights_concrete'], dtype=float))
+                                            if cfg.get('weights_concrete') is not None else None))
         if solver_name == 'GramCD':
             df, y, dmeta = None, h.vec('y', n), dict(name='Quadratic')
         else:
